@@ -135,7 +135,7 @@ def history(args):
                                "relaxed": resolver_replay.outcome(lambda: resolvers[(ic, True)].glob(objs[start], path), N.label)}]
             else:
                 relax = again[1]
-                ev.update(q="get", relax=relax, res=resolver_replay.outcome(lambda: resolvers[(ic, relax)].get(objs[start], path), N.label))
+                ev.update(q="get", relax=relax, res=resolver_replay.outcome(lambda: resolvers[(ic, relax)].get(objs[start], path), N.label, payload=True))
                 hits.extend(ev["res"]["val"])
                 del hits[:-4]
             N.Ctx.log = saved
